@@ -479,9 +479,10 @@ type GenOpts struct {
 }
 
 type gstate struct {
-	defs   []*dbh.TableDef
-	nextID int32
-	ids    map[string][]int32 // table -> live key values of column 0 for special tables
+	defs       []*dbh.TableDef
+	nextID     int32
+	ids        map[string][]int32 // table -> live key values of column 0 for special tables
+	insertOnly bool               // genDML draws INSERT statements only
 }
 
 // Gen draws a history of DDL, DML and restarts.
@@ -676,7 +677,11 @@ func genDML(t *rapid.T, g *gstate, def *dbh.TableDef, o GenOpts) *dbh.Stmt {
 	sp := special(def)
 	if sp == "" {
 		var s dbh.Stmt
-		switch rapid.IntRange(0, 5).Draw(t, "dk") {
+		dk := rapid.IntRange(0, 5).Draw(t, "dk")
+		if g.insertOnly {
+			dk = 0
+		}
+		switch dk {
 		case 0, 1, 2:
 			s = sqlgen.Insert(t, def, o.Prof)
 		case 3, 4:
@@ -696,7 +701,7 @@ func genDML(t *rapid.T, g *gstate, def *dbh.TableDef, o GenOpts) *dbh.Stmt {
 	// no UPDATE at all on hash-indexed tables (LinearProbeHashTableIndex.UpdateEntry is not implemented)
 	live := g.ids[def.Name]
 	k := rapid.IntRange(0, 5).Draw(t, "sdk")
-	if len(live) == 0 {
+	if len(live) == 0 || g.insertOnly {
 		k = 0
 	}
 	dead := func(p *dbh.Pred) *dbh.Pred { return dbh.Or(p, dbh.Leaf(def.Cols[0].Name, "=", dbh.IntV(2000000000))) }
